@@ -490,7 +490,10 @@ WalkTraceContract(e) ==
 ScaleContract(e) ==
     Verdict(Fl("succeeds_on_deep_or_shared_input", e.res = "ok") \o
             Fl("work_linear_in_dag_size", e.res # "ok" \/ e.callbacks <= e.K * e.nodes + e.slack) \o
-            Fl("pushes_bounded_by_edges", e.res # "ok" \/ e.exp <= e.K * (e.edges + 1) + e.slack), <<>>, -1)
+            Fl("pushes_bounded_by_edges", e.res # "ok" \/ e.exp <= e.K * (e.edges + 1) + e.slack) \o
+            \* collections built by the callbacks (sets of symbols, atoms, sorts, nodes ...): the families have a bounded
+            \* number of symbols / atoms / sorts, so their total size is linear in the nodes too
+            Fl("collections_built_linear_in_dag_size", e.res # "ok" \/ e.setwork <= 8 * e.nodes + 64), <<>>, -1)
 
 \* ------------------------------------------------------------------ huge constants (C01 / C02 / C07 / C09)
 (***************************************************************************)
